@@ -79,7 +79,15 @@ def onePCActs (acts : List Act) (startTS commitTS : Nat) : List Act :=
     | .putLock k l => commitLock l k startTS commitTS
     | other => [other]
 
-def fprewrite (f : FStore) (r : PrewriteReq) (x : FPrewriteExtra) : FStore × FPrewriteResp :=
+/-- the commit ts of the transaction's own commit record on one of the requested keys, if any -/
+def ownCommitTS (f : FStore) (r : PrewriteReq) : Option Nat :=
+  r.mutations.findSome? fun m =>
+    match txnCommitInfo (getEntry f.base.kv m.key).writes r.startTS with
+    | some c => if c.vt != .rollback then some c.commitTS else none
+    | none => none
+
+/-- the ordinary path of a prewrite (no commit record of the transaction on the requested keys) -/
+def fprewriteFresh (f : FStore) (r : PrewriteReq) (x : FPrewriteExtra) : FStore × FPrewriteResp :=
   let (errs0, acts) := prewriteLoop f.base r r.mutations 0 [] []
   -- a transaction rolled back on a key by an overlapped rollback is rejected like one with a visible marker
   let rolled := r.mutations.find? fun m => f.overlapped.contains (m.key, r.startTS)
@@ -109,6 +117,15 @@ def fprewrite (f : FStore) (r : PrewriteReq) (x : FPrewriteExtra) : FStore × FP
       let keep := f.async.filter fun a => !(infos.any fun i => i.key == a.key && i.startTS == a.startTS)
       ({ f with base := { f.base with kv := applyBatch f.base.kv acts' }, async := infos ++ keep },
        { errs := errs, minCommitTS := m })
+
+/-- Prewrite.  A repeated prewrite of a transaction that is ALREADY committed on a requested key (the answer of an
+    async-commit / one-phase prewrite was lost and the client retries, possibly re-grouped after a split) is idempotent
+    (TiKV `check_committed_record_on_err`): nothing is written and the answer is success carrying that commit ts as
+    min_commit_ts (and as one_pc_commit_ts when the retry still asks for one-phase commit). -/
+def fprewrite (f : FStore) (r : PrewriteReq) (x : FPrewriteExtra) : FStore × FPrewriteResp :=
+  match ownCommitTS f r with
+  | some c => (f, { errs := r.mutations.map fun _ => none, minCommitTS := c, onePCCommitTS := if x.tryOnePC then c else 0 })
+  | none => fprewriteFresh f r x
 
 structure FStatusResp where
   base : StatusResp := {}
